@@ -453,23 +453,8 @@ func (m *Mast) Insert(ctx context.Context, key, value interface{}) error {
 			return m.savePathForRoot(ctx, options.path)
 		}
 	}
-	// XXX do after split, XXX mark tree invalid if split fails
-	node = node.ToMut(ctx, m)
-	node.Dirty()
-	if i < len(node.Key) {
-		node.Key = append(node.Key[:i+1], node.Key[i:]...)
-		node.Key[i] = key
-		node.Value = append(node.Value[:i+1], node.Value[i:]...)
-		node.Value[i] = value
-	} else {
-		node.Key = append(node.Key, key)
-		node.Value = append(node.Value, value)
-	}
-	if i < len(node.Link) {
-		node.Link = append(node.Link[:i+1], node.Link[i:]...)
-	} else {
-		node.Link = append(node.Link, nil)
-	}
+	// Split the child that the new key falls into before touching the target
+	// node, so that a failing load or key comparison leaves the tree as it was.
 	var leftLink interface{}
 	var rightLink interface{}
 	if node.Link[i] != nil {
@@ -485,12 +470,24 @@ func (m *Mast) Insert(ctx context.Context, key, value interface{}) error {
 		if err != nil {
 			return fmt.Errorf("split: %w", err)
 		}
+	} else if m.debug {
+		fmt.Printf("  child did not need a split\n")
+	}
+	node = node.ToMut(ctx, m)
+	node.Dirty()
+	if i < len(node.Key) {
+		node.Key = append(node.Key[:i+1], node.Key[i:]...)
+		node.Key[i] = key
+		node.Value = append(node.Value[:i+1], node.Value[i:]...)
+		node.Value[i] = value
 	} else {
-		if m.debug {
-			fmt.Printf("  child did not need a split\n")
-		}
-		leftLink = nil
-		rightLink = node.Link[i]
+		node.Key = append(node.Key, key)
+		node.Value = append(node.Value, value)
+	}
+	if i < len(node.Link) {
+		node.Link = append(node.Link[:i+1], node.Link[i:]...)
+	} else {
+		node.Link = append(node.Link, nil)
 	}
 
 	node.Link[i] = leftLink
